@@ -476,5 +476,5 @@ func main() {
 	if err := os.WriteFile(out, []byte(sb.String()), 0644); err != nil {
 		die(err)
 	}
-	fmt.Println("FACTS 14")
+	fmt.Printf("FACTS %d\n", 14+genSharedFacts())
 }
